@@ -32,7 +32,9 @@ PALETTE = {
              # a value computed earlier in an enclosing block by a "def" statement
              (("a", 0), ("d",)), (("d",), ("a", 1)),
              # the counter of the enclosing loop, seen from a loop nested in it
-             (("oiv",), ("a", 1)), (("a", 0), ("oivk", 3))],
+             (("oiv",), ("a", 1)), (("a", 0), ("oivk", 3)),
+             # a value chosen by a pure region op (scf.if) whose body takes the latest "def" value from its surroundings
+             (("dsel", 0), ("a", 1)), (("a", 0), ("dsel", 1))],
     "acc2": [(("a", 0), ("a", 1), ("k", 5)), (("a", 3), ("a", 1), ("k", 5)), (("iv",), ("a", 1), ("a", 2))],
     "rocc1": [(("a", 0), ("a", 1), ("a", 2), ("a", 3)), (("a", 0), ("a", 3), ("a", 2), ("a", 3)), (("a", 2), ("a", 1), ("a", 2), ("a", 1)),
               (("iv",), ("a", 1), ("a", 2), ("a", 3)), (("a", 0), ("a", 1), ("a", 2), ("ivk", 5))],
@@ -94,6 +96,16 @@ class Render:
                 if name is not None:
                     return name
             return "%a2"
+        if k == "dsel":
+            d = next((name for name in reversed(self.defs) if name is not None), "%a2")
+            r, w = self.fresh("sel"), self.fresh("w")
+            self.emit(f"{r} = scf.if %c{v[1]}b -> (i32) {{", ind)
+            self.emit(f"{w} = arith.muli {d}, {d} : i32", ind + 1)
+            self.emit(f"scf.yield {w} : i32", ind + 1)
+            self.emit("} else {", ind)
+            self.emit("scf.yield %a1 : i32", ind + 1)
+            self.emit("}", ind)
+            return r
         if k == "res":
             rs = self.results[-1] if self.results else []
             return rs[v[1]] if v[1] < len(rs) else f"%a{v[1] + 1}"
